@@ -447,11 +447,18 @@ LEVEL_TEXT = ('per sampled history, every crash point the property names is '
               'subset for long ones) and each crash image is reopened with '
               'the real recovery code and compared with the model prefix by '
               'an independent parser and through the storage API; the order '
-              'of fsync and acknowledgement is read off the op log.  '
+              'of fsync and acknowledgement is read off the op log and '
+              'checked by the image in which every un-synced data-file write '
+              'is lost at each acknowledgement.  For a seeded subset: a '
+              'second crash inside the recovery itself, and an index file '
+              'whose never-synced contents are empty or cut short.  '
               'Histories are sampled by seed.')
 LEVEL_NOTE = ('crash model = prefix of issued low-level operations plus one '
-              'torn write (the property\'s quantifier); no reordering of '
-              'un-synced writes, no directory-entry loss; trusted: op log '
+              'torn write (the property\'s quantifier), or all un-synced '
+              'data-file writes lost; arbitrary subsets/reorderings of '
+              'un-synced writes are not explored (FileStorage issues one '
+              'fsync per commit and relies on their order), no '
+              'directory-entry loss; trusted: op log '
               'of simfs, reference model, fsparse; long writes are cut at a '
               'sampled subset of byte offsets')
 TECHNIQUE = ('deterministic simulation: recorded low-level op log, '
